@@ -256,6 +256,12 @@ inline ::std::coroutine_handle<> Cancellable<A>::await_suspend(
     co_return co_await ::std::forward<A>(awaitable);
   }(::std::forward<A>(_awaitable), id);
   auto proxy_handle = _task.handle();
+  // Proxy coroutine runs on behalf of awaiter, bind it to the same executor.
+  // Otherwise inner awaitable inherit no executor from proxy, and can not be
+  // resumed after suspend.
+  if (handle.promise().executor() != nullptr) {
+    proxy_handle.promise().set_executor(*handle.promise().executor());
+  }
   set_proxy_promise(&proxy_handle.promise());
   BABYLON_VERIF_POINT("cocancel:proxy_set");
   if (_on_suspend) {
